@@ -733,7 +733,15 @@ func main() {
 			l := decode(f.c)
 			o := evalList(l, true)
 			if o.mask != f.mask {
-				vlib.Infra("nondeterminism: list %s evaluated to mask %x then %x", listName(l), f.mask, o.mask)
+				// the harness itself is deterministic (no clock, no randomness, sorted iteration): two evaluations of
+				// one list can only differ when the code under test carries state from one call into the next (a pooled
+				// or package-level buffer aliased by a stored value). The wire data of an accepted list then depends on
+				// what was parsed before or concurrently: not faithful to the declared parameters.
+				fp := "state-leak/" + listName(l)
+				allFingerprints = append(allFingerprints, fp)
+				r.Violate(fp, fmt.Sprintf("the same parameter list gave different verdicts in two evaluations (disagreement mask %x, then %x): the compiled data depends on earlier calls", f.mask, o.mask),
+					map[string]interface{}{"params_text": replayText(l), "first_mask": f.mask, "second_mask": o.mask})
+				continue
 			}
 			for kd := 0; kd < nKinds; kd++ {
 				if minimalMask[i]&(1<<uint(kd)) == 0 {
